@@ -161,6 +161,10 @@ class ProgGen:
             if self.r.random() < 0.5:
                 e = B('||', B('>', leaf(), N(self.r.randint(2, 9))), e)
             self.features.add('deep-precedence-condition')
+        elif self.r.random() < 0.06:
+            # a condition whose TOP node is a unary minus (true while the number is not zero) or a doubled not
+            e = U('-', self.num(scope, 2)) if self.r.random() < 0.7 else U('!', U('!', e))
+            self.features.add('unary-top-condition')
         if self.probes and self.r.random() < 0.3:
             self.tag += 1
             e = C('hp', S(f'c{self.tag}'), e)
@@ -210,7 +214,10 @@ class ProgGen:
             body = [['assign', w, B('+', V(w), N(1))]] + self.block(scope + [w], depth + 1, True, infunc,
                                                                      inwhile=('c' if allow_cont else 'n'))
             c = B('<', V(w), N(k))
-            if r.random() < 0.4:
+            if r.random() < 0.1:
+                c = U('-', B('-', N(k), V(w)))  # `while -(k - w):` - the loop test is a unary minus at the top (non-zero = go on)
+                self.features.add('unary-top-condition')
+            elif r.random() < 0.4:
                 c = B('&&', c, self.cond(scope))
             self.features.add('while')
             return [['assign', w, N(0)], ['while', c, body]]
